@@ -36,6 +36,7 @@
 **                directions => same hash, across kinds and histories; copy(container); List := Array and
 **                Array := List (non-empty targets) are eq to the source and hash like it.  Tuples referencing
 **                one object at several positions (heap, stack) as LEFT operand of eq against all of them.
+**                Table and Tree keyed by the domain (values Int) and holding the domain (keys Int): see map_case.
 ** part=recycled  (dom recycled) run-time record types without instances created, used, deleted and re-created
 **                with another size - normally at the same address; the first operation on the new type is
 **                hash / assign / swap / copy in turn (see vf_cmp.h).
@@ -45,7 +46,7 @@
 **             grid=small|large
 ** Case keys (replayable): "hashdata <pat> <len> <align>", "values <dom> <i> <class>",
 **   "pairs <dom> <i> <j>", "copy <dom> <i> <src>", "assign <dom> <i> <j>" (j = -1 zeroed
-**   fresh, -2 default-constructed fresh), "swap <dom> <i> <j> <heap|stack|array|array-stack>", "sort <dom> <order>", "containers <dom> <codes|->",
+**   fresh, -2 default-constructed fresh), "swap <dom> <i> <j> <heap|stack|array|array-stack>", "sort <dom> <order>", "containers <dom> <codes|->", "maps <dom> <table|tree> <keys|vals> <subset>",
 **   "recycled <hash|assign|swap|copy> <generation>" (replays the sub-family up to that generation).
 */
 
@@ -715,6 +716,70 @@ static void container_case(const int* e, var* E, const int* code, int SL) {
   for (int a = 0; a < NCONT; a++) if (a != 3) del_raw(C[a]);
 }
 
+/* ---- maps keyed by / holding the element domain -------------------------------------------------------
+**
+** Table and Tree with key type = the domain (values Int) and with Int keys (values of the domain), every
+** non-empty subset of three bindings: hash must not raise; the same bindings built in ascending and in
+** descending order, copy(), and assign into a non-empty map hash equal (only the hash is judged here: eq of
+** Tables with colliding keys is known finding D10); a Table and a Tree that are eq both ways hash equal;
+** changing the value of one binding changes the hash for at least one of three replacement values.
+*/
+static var map_new(int tree, int keyed) {
+  if (keyed) return tree ? (var)new_raw(Tree, H.type, Int) : (var)new_raw(Table, H.type, Int);
+  return tree ? (var)new_raw(Tree, Int, H.type) : (var)new_raw(Table, Int, H.type);
+}
+static void map_set(var m, int keyed, var* E, int k, int alt) {
+  /* binding k: keyed: E[k] -> 10+k (alt: 20+k+alt); else 10+k -> E[k] (alt: E[(k+alt)%3]) */
+  if (keyed) set(m, E[k], $I(alt ? 20 + k + alt : 10 + k));
+  else set(m, $I(10 + k), E[alt ? (k + alt) % 3 : k]);
+}
+
+static void map_case(var* E, int tree, int keyed, int subset) {
+  const char* kind = tree ? "tree" : "table";
+  char cls[48]; snprintf(cls, sizeof cls, "%s-%s", kind, keyed ? "keyed-by-domain" : "holding-domain-values");
+  if (!begin_case(NULL, "maps %s %s %s %d", H.name, kind, keyed ? "keys" : "vals", subset)) return;
+  if (tree && keyed && H.no_tree_key) { vf.executions--; return; }
+  volatile var m1 = NULL, m2 = NULL, m3 = NULL, cp = NULL, other = NULL;
+  volatile uint64_t h1 = 0, h2 = 0, h3 = 0, hc = 0, ho = 0;
+  volatile bool e1 = false, e2 = false;
+  var ex = VF_CATCH(
+    m1 = map_new(tree, keyed); m2 = map_new(tree, keyed); m3 = map_new(tree, keyed);
+    for (int k = 0; k < 3; k++) if (subset & (1 << k)) map_set(m1, keyed, E, k, 0);
+    for (int k = 2; k >= 0; k--) if (subset & (1 << k)) map_set(m2, keyed, E, k, 0);
+    map_set(m3, keyed, E, 0, 1); map_set(m3, keyed, E, 2, 2);
+    h1 = hash(m1); h2 = hash(m2);
+    cp = copy(m1); hc = hash(cp);
+    assign(m3, m1); h3 = hash(m3);
+    other = map_new(!tree, keyed);
+    if (!(!tree && keyed && H.no_tree_key)) {
+      for (int k = 0; k < 3; k++) if (subset & (1 << k)) map_set(other, keyed, E, k, 0);
+      ho = hash(other); e1 = eq(m1, other); e2 = eq(other, m1);
+    }
+  );
+  vf.evaluations += 5;
+  if (ex) vf_violation(L(H.name, cls, "raises"), NULL, "building / hashing / copying the map raised %s", vf_exc_name(ex));
+  else {
+    if (len(m1) != (size_t)__builtin_popcount(subset)) vf_violation(L(H.name, cls, "len"), NULL, "len = %zu, %d bindings were set", len(m1), __builtin_popcount(subset));
+    if (h1 != h2) vf_violation(L(H.name, cls, "hash-depends-on-insertion-order"), NULL, "same bindings inserted ascending / descending hash to %016" PRIx64 " / %016" PRIx64, (uint64_t)h1, (uint64_t)h2);
+    if (hc != h1) vf_violation(L(H.name, cls, "copy-hash-differs"), NULL, "hash(copy(m)) = %016" PRIx64 ", hash(m) = %016" PRIx64, (uint64_t)hc, (uint64_t)h1);
+    if (h3 != h1) vf_violation(L(H.name, cls, "assign-hash-differs"), NULL, "after assign(non-empty map, m) the target hashes to %016" PRIx64 ", m to %016" PRIx64, (uint64_t)h3, (uint64_t)h1);
+    if (e1 && e2 && ho != h1) vf_violation(L(H.name, cls, "eq-to-other-kind-but-hash-differs"), NULL, "a Table and a Tree with the same bindings are eq but hash to %016" PRIx64 " and %016" PRIx64, (uint64_t)h1, (uint64_t)ho);
+    /* a changed value shows in the hash (three different replacements, one collision is forgiven) */
+    int first = __builtin_ctz(subset), changed = 0;
+    for (int alt = 1; alt <= 3 && !ex; alt++) {
+      volatile uint64_t hx = 0;
+      ex = VF_CATCH(map_set(m2, keyed, E, first, alt); hx = hash(m2));
+      if (!ex && hx != h1) changed++;
+    }
+    vf.evaluations++;
+    if (ex) vf_violation(L(H.name, cls, "raises"), NULL, "updating a binding / hashing raised %s", vf_exc_name(ex));
+    else if (!changed) vf_violation(L(H.name, cls, "hash-ignores-values"), NULL, "the hash stayed %016" PRIx64 " for three different replacement values of one binding", (uint64_t)h1);
+    vf.nontrivial++;
+    if (vf_want_sample()) vf_sample("%s -> hash %016" PRIx64, ckey, (uint64_t)h1);
+  }
+  { var e3 = VF_CATCH(if (cp) del(cp); if (m1) del_raw(m1); if (m2) del_raw(m2); if (m3) del_raw(m3); if (other) del_raw(other)); (void)e3; }
+}
+
 static void part_containers(void) {
   if (!H.embed) return;
   int n = H.n, e[3], ne = 0;
@@ -736,6 +801,7 @@ static void part_containers(void) {
       container_case(e, E, code, SL);
     }
   }
+  for (int tree = 0; tree < 2; tree++) for (int keyed = 0; keyed < 2; keyed++) for (int subset = 1; subset < 8; subset++) map_case(E, tree, keyed, subset);
   for (int k = 0; k < 12; k++) drop_raw(E[k]);
 }
 
